@@ -255,6 +255,8 @@ pub fn c15(eng: &mut Engine, rng: &mut Rng, thorough: bool, out: &mut Out) -> Ca
         for len in 0..=48usize { for _ in 0..(if thorough { 12 } else { 3 }) { byte_strings.push((0..len).map(|_| rng.below(256) as u8).collect()); } }
         for b in [0u8, 255, 0xfb, 0xff] { for len in 1..=4 { byte_strings.push(vec![b; len]); } }
         for _ in 0..(if thorough { 300 } else { 30 }) { let len = 49 + rng.below(400) as usize; byte_strings.push((0..len).map(|_| rng.below(256) as u8).collect()); }
+        // sizes of real proof values and beyond (a presentation with a dozen predicates carries ~100 KiB)
+        for len in [4_095usize, 4_096, 16_383, 16_384, 16_385, 65_537, 200_000] { byte_strings.push((0..len).map(|_| rng.below(256) as u8).collect()); }
         let mut texts: Vec<(String, String)> = vec![];
         for b in &byte_strings {
             let t = base64_encode(b);
@@ -270,7 +272,7 @@ pub fn c15(eng: &mut Engine, rng: &mut Rng, thorough: bool, out: &mut Out) -> Ca
         let symbols: Vec<char> = alphabet.iter().chain(intruders.iter()).cloned().collect();
         texts.push(("short".into(), String::new()));
         for a in &symbols { texts.push(("short".into(), a.to_string())); for b in &symbols { texts.push(("short".into(), format!("{a}{b}"))); } }
-        let valid: Vec<String> = texts.iter().filter(|(c, t)| c == "valid" && !t.is_empty()).map(|(_, t)| t.clone()).collect();
+        let valid: Vec<String> = texts.iter().filter(|(c, t)| c == "valid" && !t.is_empty() && t.len() < 1000).map(|(_, t)| t.clone()).collect();
         for (i, t) in valid.iter().enumerate() {
             if i % (if thorough { 1 } else { 4 }) != 0 { continue; }
             let head: String = t.chars().take(t.chars().count() - 1).collect();
@@ -544,6 +546,52 @@ pub fn c15(eng: &mut Engine, rng: &mut Rng, thorough: bool, out: &mut Out) -> Ca
             let v2 = eng.verify_legacy(&serde_json::to_value(&p2).unwrap(), &r2, &o).map(|x| x.0);
             if v1 != v2 {
                 out.oracle_fail("presentation verifies differently after a wire hop", &json!({"fam":"c15.present","sig":"","format":"legacy"}), &json!({"direct": v1, "hopped": v2}));
+            }
+        }
+    }
+    // size: nothing in the wire formats depends on how much a presentation proves — one credential answering 1..=12 predicates (the sub
+    // proof grows by some kilobytes each), with everything revealed besides, and three credentials with four predicates each (the
+    // aggregated proof grows with the total): every one crosses a hop unchanged and verifies as before
+    {
+        use crate::scen::{CredUse, Kind, Plan, RefPlan};
+        let mk_plan = |helds: &[&str], per_cred: usize, eng: &Engine, rng: &mut Rng| -> Plan {
+            let mut refs = vec![];
+            for (ci, _) in helds.iter().enumerate() {
+                for k in 0..per_cred {
+                    let (name, ty, th) = [("age", "GE", 18), ("age", "LT", 200), ("age", "GT", -5), ("age", "LE", 150)][k % 4];
+                    refs.push(RefPlan { referent: format!("p{ci}_{k}"), kind: Kind::Pred(name.into(), ty, th + (k / 4) as i32), cred: Some(ci), revealed: false, restrictions: None, non_revoked: None });
+                }
+                refs.push(RefPlan { referent: format!("a{ci}"), kind: Kind::Single("name".into()), cred: Some(ci), revealed: true, restrictions: None, non_revoked: None });
+            }
+            Plan { creds: helds.iter().map(|h| CredUse { held: eng.cast.cred(h), state_list: None, ts_only: None }).collect(), refs, global_nr: None, nonce: format!("{}", 1000 + rng.below(1_000_000_000)), holder: 0 }
+        };
+        let mut plans: Vec<(String, Plan)> = vec![];
+        for n in (if thorough { vec![1usize, 2, 3, 4, 5, 6, 8, 10, 12] } else { vec![1usize, 3, 6, 12] }) { plans.push((format!("one-credential-{n}-predicates"), mk_plan(&["a_alice"], n, eng, rng))); }
+        plans.push(("three-credentials-4-predicates-each".into(), mk_plan(&["a_alice", "b_alice", "l_alice"], 4, eng, rng)));
+        for (cls, plan) in plans {
+            let o = honest_vopts(&eng.cast, &plan);
+            match eng.build_w3c(&plan) {
+                Ok(b) => {
+                    let p2 = hop_eq(&b.pres, "W3CPresentation", out, &cls);
+                    let (v1, _) = eng.verify_w3c(&b.pres, &b.req, &o);
+                    let (v2, _) = eng.verify_w3c(&p2, &b.req, &o);
+                    let size = serde_json::to_string(&b.pres).map(|t| t.len()).unwrap_or(0);
+                    out.count(&format!("c15:size:w3c:{cls}:{v1}{v2}:{}k", size / 1024));
+                    if v1 != "T" || v2 != "T" {
+                        out.oracle_fail("a large honest W3C presentation does not verify, or not after a wire hop", &json!({"fam":"c15.present","sig":"","format":"w3c","cls":cls}), &json!({"direct": v1, "hopped": v2, "bytes": size}));
+                    }
+                }
+                Err(e) => out.count(&format!("c15:size:w3c:{cls}:not-built:{}", e.chars().take(40).collect::<String>())),
+            }
+            if let Ok(b) = eng.build_legacy(&plan) {
+                let p: Presentation = serde_json::from_value(b.pres.clone()).unwrap();
+                let p2 = hop(&p, "Presentation", out, &cls);
+                let v1 = eng.verify_legacy(&b.pres, &b.req, &o).map(|x| x.0);
+                let v2 = eng.verify_legacy(&serde_json::to_value(&p2).unwrap(), &b.req, &o).map(|x| x.0);
+                out.count(&format!("c15:size:legacy:{cls}:{}{}", v1.clone().unwrap_or_default(), v2.clone().unwrap_or_default()));
+                if v1.as_deref() != Some("T") || v2.as_deref() != Some("T") {
+                    out.oracle_fail("a large honest legacy presentation does not verify, or not after a wire hop", &json!({"fam":"c15.present","sig":"","format":"legacy","cls":cls}), &json!({"direct": v1, "hopped": v2}));
+                }
             }
         }
     }
